@@ -613,6 +613,11 @@ pub fn run_hist(hp: &HP, seed: u64, steps: Option<&[Step]>) -> HistRun {
     out.stats = d.stats.clone();
     out.stats.add("events", d.history.len() as u64);
     out.violations = d.violations;
+    if hp.wild_config {
+        // configurations outside every other property's premise (packets smaller than a header, absurd
+        // counts): only the no-panic oracle is meaningful, the other monitors' verdicts are not recorded
+        out.violations.retain(|v| v.property == "C06");
+    }
     out.sim_ns = now.min(1u64 << 50);
     HistRun { out, steps: done, history: d.history }
 }
